@@ -356,6 +356,7 @@ mod verif_c16_control {
     }
 
     //@ obligation C16 C16.Cr3_read.decodes_register
+    //@ obligation C20 C20.Cr3_read.decodes_register
     #[kani::proof]
     fn c16_cr3_read_decodes_register() {
         verif_hw::reset_symbolic();
@@ -379,6 +380,7 @@ mod verif_c16_control {
     }
 
     //@ obligation C16 C16.Cr3_read_raw.decodes_register
+    //@ obligation C20 C20.Cr3_read_raw.decodes_register
     //@ obligation C16 C16.Cr3_read_pcid.decodes_register
     #[kani::proof]
     fn c16_cr3_read_raw_and_pcid_decode_register() {
